@@ -220,6 +220,17 @@ def scenario(sseed, kind, mode):
             log2 = []
             script2 = make_script(R, 20)
             t2 = build_tuner(kind, specs, d, cfg, script2, log2)
+            # C02 (restart) / C19: trials that ended in the interrupted process went through on_trial_end, which saves the tuner;
+            # the restarted tuner must know them and count them against the budget
+            lost = [tid for tid in o.end_order if tid not in t2.oracle.trials]
+            want_left = (o.max_trials - len(o.trials)) if o.max_trials else None
+            if o.end_order and (lost or (want_left is not None and t2.remaining_trials != want_left)):
+                what = (f"{kind}: {len(o.end_order)} trial(s) had ended when the search was interrupted (max_trials={o.max_trials}, {len(o.trials)} trials exist); "
+                        f"the restarted tuner (overwrite off) knows {sorted(t2.oracle.trials)} and reports remaining_trials={t2.remaining_trials}: "
+                        f"a further full budget of distinct trials is started")
+                v = Violation("C02", what, {"tag": "restart-forgets", "kind": kind})
+                v.also = [Violation("C19", what, {"tag": "restart-forgets", "kind": kind})]
+                raise v
             if tuner_file:
                 first = None
                 how2 = run_search(t2, log2)
@@ -287,7 +298,9 @@ def crash_scenario(sseed, kind, res):
                         st = json.load(open(f))
                         disk_state[tid] = (st["status"], fl_str(st["score"]) if st["score"] is not None else "-")
                 tuner_file = os.path.exists(os.path.join(pdir, "tuner0.json"))
-                sig = {"window": "oracle-file-without-tuner-file"} if (disk_end and not tuner_file) else {}
+                # known finding F18 is the window before the FIRST write of the tuner file (one trial durably ended); a missing
+                # tuner file later in the search is something else
+                sig = {"window": "oracle-file-without-tuner-file"} if (len(disk_end) == 1 and not tuner_file) else {}
                 log2 = []
                 try:
                     t2 = build_tuner(kind, specs, d, cfg, script + make_script(R0, 10), log2)
@@ -335,7 +348,8 @@ def run(seed, tier, n=None, kinds=KINDS, crash_n=None):
         try:
             lines, expect, doc, tags = scenario(sseed, kind, mode)
         except Violation as v:
-            res.violations.append({"pid": v.pid, "what": v.what, "sig": v.sig, "replay": {"suite": "search", "seed": sseed, "kind": kind, "mode": mode}})
+            for x in [v] + list(getattr(v, "also", [])):
+                res.violations.append({"pid": x.pid, "what": x.what, "sig": x.sig, "replay": {"suite": "search", "seed": sseed, "kind": kind, "mode": mode}})
             continue
         res.hist.update(tags)
         res.hist["kind-" + kind] += 1
@@ -373,7 +387,8 @@ def replay(doc):
             return res
         lines, expect, d, tags = scenario(doc["seed"], doc["kind"], doc["mode"])
     except Violation as v:
-        res.violations.append({"pid": v.pid, "what": v.what, "sig": v.sig, "replay": doc})
+        for x in [v] + list(getattr(v, "also", [])):
+            res.violations.append({"pid": x.pid, "what": x.what, "sig": x.sig, "replay": doc})
         return res
     out = run_driver(lines)
     compare(res, lines, expect, out, d)
